@@ -112,7 +112,7 @@ def put(self, packet):
 ''')
 
 spec('Port', 'run', what='one packet at a time: dequeue, hold 8*size/rate when rate > 0, release its bytes on every '
-                         'path, forward it once')('''
+                         'path (an empty port holds exactly 0 bytes, whatever the rounding history), forward it once')('''
 def run(self, env):
     while True:
         packet = yield self.store.get()
@@ -121,6 +121,8 @@ def run(self, env):
         if self.rate > 0:
             yield env.timeout(packet.size * 8 / self.rate)
         self.byte_size -= packet.size
+        if not self.store.items:
+            self.byte_size = 0
         if self.out:
             self.out.put(packet)
         self.busy = 0
